@@ -189,6 +189,11 @@ Proof.
   exists r. split; [reflexivity|]. apply extents_ok_sound. exact H.
 Qed.
 
+(* the boolean, given the result of the tolerant walk (Model/WalkJudgeTie.v evaluates the right-hand side) *)
+Lemma walk_ok_of_result : forall fuel f r, walk wtolerant fuel f = Ok r ->
+  walk_ok fuel f = extents_ok (blen f) (wr_eof r) (plain (wr_extents r)).
+Proof. intros fuel f r H. unfold walk_ok. rewrite H. reflexivity. Qed.
+
 (* ================================================================== 3. more fuel never changes an accepted answer *)
 Definition mle {A} (m1 m2 : W A) : Prop := forall st r, m1 st = WOk r -> m2 st = WOk r.
 
